@@ -121,6 +121,10 @@ def run(ctx, rep):
         isinstance(e, (ast.Dict, ast.List, ast.Set)) or (isinstance(e, ast.Call) and A.call_name(e) in
                                                         ("dict", "list", "set", "WeakValueDict", "RefCountingColl"))
         for e in exprs)]
+    # constant keyword tables (string keys, plain names/constants as values, nothing in the package stores into them) hold no
+    # per-connection objects
+    from .. import callforms as _CF
+    glob_tables = [n for n in glob_tables if n not in _CF.constant_tables(ctx.repo).get(K.PROTO, set())]
     okg = set(glob_tables) <= {"DEFAULT_CONFIG"}
     rep.ob("R07.2", "protocol module: no module-level object table", okg,
            "module-level mutable objects: %s" % sorted(glob_tables) if okg else
